@@ -134,15 +134,15 @@ func doPanic(kind string) {
 
 type nopCache struct{}
 
-func (nopCache) Del(...string) error                                  { return nil }
-func (nopCache) DelCtx(context.Context, ...string) error              { return nil }
-func (nopCache) Get(string, any) error                                { return sql.ErrNoRows }
-func (nopCache) GetCtx(context.Context, string, any) error            { return sql.ErrNoRows }
-func (nopCache) IsNotFound(err error) bool                            { return errors.Is(err, sql.ErrNoRows) }
-func (nopCache) Set(string, any) error                                { return nil }
-func (nopCache) SetCtx(context.Context, string, any) error            { return nil }
-func (nopCache) SetWithExpire(string, any, time.Duration) error       { return nil }
-func (nopCache) Take(v any, _ string, q func(any) error) error        { return q(v) }
+func (nopCache) Del(...string) error                            { return nil }
+func (nopCache) DelCtx(context.Context, ...string) error        { return nil }
+func (nopCache) Get(string, any) error                          { return sql.ErrNoRows }
+func (nopCache) GetCtx(context.Context, string, any) error      { return sql.ErrNoRows }
+func (nopCache) IsNotFound(err error) bool                      { return errors.Is(err, sql.ErrNoRows) }
+func (nopCache) Set(string, any) error                          { return nil }
+func (nopCache) SetCtx(context.Context, string, any) error      { return nil }
+func (nopCache) SetWithExpire(string, any, time.Duration) error { return nil }
+func (nopCache) Take(v any, _ string, q func(any) error) error  { return q(v) }
 func (nopCache) SetWithExpireCtx(context.Context, string, any, time.Duration) error {
 	return nil
 }
